@@ -21,13 +21,24 @@ statement by statement; the mirrored source region is hash-pinned).
   connected at the tick (`C17_arm_not_weak_when_disconnected`) and for every link when the tick's total is under the
   floor (`C17_arm_not_weak_under_floor`); the filter state along a `Full` run is `classify` folded over the slices at the
   ticks (`C17_arm_history`), i.e. the stamped flags of a run from a fresh filter are `verdictAt` of that history and the
-  streak / probation / hysteresis theorems of `Props/C17.lean` apply (`C17_arm_at_most_15_in_a_row` as the instance);
+  streak / probation / hysteresis theorems of `Props/C17.lean` apply; stated over the STAMPED flags of the run (audit 5,
+  A2): `C17_arm_at_most_15_in_a_row` (no conn id leaves the arm `weak = true` with reported reason LowShare / NoTraffic
+  at 16 consecutive ticks), `C17_arm_probation_three_ticks` (after 15 such ticks, three ticks with `weak = false` while
+  the id stays present); no event but a tick touches the filter / controller (`C17_arm_reload_keeps_filter`, §4);
 * **C16 at arm level** (§3): the stamped `cc_target_bps` / `cc_backing_off` / `loss_degraded` are the snapshot of the
   link's controller entry, which exists (`C16_arm_target_is_snapshot`); the entries after a tick are EXACTLY the conn ids
   of the links of that tick (`C16_arm_entries_exact`); a link the controller has no entry for — e.g. one a reload
   created since the last tick — starts from `LinkCongestionState::default()` (`C16_arm_fresh_from_default`,
   `C16_arm_reload_link_starts_default`); along EVERY run of the whole sender the stamped target of every link is 0 or
-  within [100 000, 200 000 000] (`C16_arm_bounds_run`).
+  within [100 000, 200 000 000] (`C16_arm_bounds_run`); right after every tick of every run every link carries the
+  snapshot of its OWN entry (never 0), and between ticks 0 occurs only on a link whose conn id a reload drew since the
+  last tick (`C16_arm_own_snapshot_run`, audit 5 A3).
+
+Limits (audit 5): the model is tied to the harness's statement-by-statement MIRROR of the arm (op `hkarm`), not to the
+arm inside `run_sender_with_config` itself, which is covered by a hash pin and `looptrace` only (A1, harness side);
+every Lean example tick is a bypass tick (`exViews` reads 0.0 bit/s; `Float` is opaque to `decide`), so non-vacuity of
+"stamped weak = true" rests on the harness counters `hkarm-weak-stamped` / `hkarm-classified` (A7); `Full` lets a
+reload happen anywhere between ticks, the real loop runs it inside the tick after the stamps (a superset, A10).
 
 Scalars: `F` (shell) and `G` (controller) are arbitrary; the classifier front end is `Float` (uninterpreted in the
 proofs, as in `Props/C17.lean`).  The views are a parameter; the theorems that relate a verdict to THE link need
@@ -85,7 +96,9 @@ def exEvs : List FEv :=
 `sync_conn_timeout`, `handle_housekeeping`, then one `Ev.stamp i …` per link in index order whose verdicts are
 `armStamp` = `stampOf` of the classification `classify s.cls (views of the links after housekeeping)` and of the
 controller `tickAll s.ctl (views of the links after housekeeping) now`, looked up by the conn id of link `i`; the
-arm's output is housekeeping's; the filter / controller components are the `classify` / `tickAll` results. -/
+arm's output is housekeeping's; the filter / controller components are the `classify` / `tickAll` results.
+(Audit 5, A8: the CONTENT is conjunct 1 - the `map` of the stamping loop is the left-to-right run of the `stamp`
+events; conjuncts 2-5 restate the definition of `hkArm` / `armStamp` and hold by `rfl`.) -/
 theorem hkArm_projects (v : Views F G) (s : Full F G) (now : Nat) :
     (hkArm v s now).1.sys =
       (run s.sys ([.syncTimeout, .hk now] ++
@@ -106,7 +119,11 @@ theorem Full_run_projects (v : Views F G) (s : Full F G) (es : List FEv) :
     (Full.run v s es).1.sys = (run s.sys (trace v s es)).1 :=
   run_sys v s es
 
-/-- Hence every run-level theorem about `Sys.run` applies to the shell component of every `Full` run. -/
+/-- Hence every run-level theorem about `Sys.run` applies to the shell component of every `Full` run.
+LIMIT (audit 5, A8): `hP` must hold for ALL shell event lists from `s.sys`, bare `stamp` events with arbitrary
+verdicts included, so only stamp-INSENSITIVE predicates transfer this way.  A theorem with hypotheses on the event
+list (`FreshRun`, clocks, `NoReload` …) must be applied to `trace v s es` itself via `Full_run_projects`, and its
+hypotheses discharged on that list, which contains the COMPUTED verdicts (as `Full_run_inv` does for `FreshRun`). -/
 theorem Full_run_transfer (v : Views F G) (s : Full F G) (es : List FEv) (P : Sys F → Prop)
     (hP : ∀ evs, P (run s.sys evs).1) : P (Full.run v s es).1.sys := by
   rw [Full_run_projects]; exact hP _
@@ -174,7 +191,8 @@ theorem armStamp_weak (v : Views F G) (s : Full F G) (now id : Nat) :
 `handle_housekeeping`, which is what `classify` reads): the link at index `i` after the arm is that link with
 `weak` = the `weak` of the FIRST entry of `classification.per_link` with its conn id, `false` if there is none; with
 faithful views and pairwise distinct conn ids that entry is the verdict `verdictOf` the filter computed for THIS
-link's readings. -/
+link's readings.  (Audit 5, A8: conjunct 3 - `weak` = `find … unwrap_or(false)` - restates `stampOf` and holds by
+`rfl`; the content is conjunct 4, which needs `Faithful` and `Nodup`.) -/
 theorem C17_arm_weak_is_verdict (v : Views F G) (hv : Faithful v) (s : Full F G) (now i : Nat) (l : FLink F)
     (hl : (afterHk s.sys now).1.links[i]? = some l) :
     ∃ l', (hkArm v s now).1.sys.links[i]? = some l' ∧ l'.core.connId = l.core.connId ∧
@@ -200,7 +218,12 @@ theorem C17_arm_weak_is_verdict (v : Views F G) (hv : Faithful v) (s : Full F G)
   rfl
 
 /-- **Never stamped weak while not connected.**  A link that is not `connected` at the tick (after
-`handle_housekeeping`) leaves the arm with `weak = false` — faithful views, pairwise distinct conn ids. -/
+`handle_housekeeping`) leaves the arm with `weak = false` — faithful views, pairwise distinct conn ids.
+LIMIT (audit 5, A5): this is about the state RIGHT AFTER the arm.  Between ticks `mark_for_recovery` (a failed
+threshold send, REG_ERR) sets `connected = false` and nothing clears `conn.weak` (`step_verdicts`: only `stamp`
+writes it), so `weak ∧ ¬connected` IS reachable for up to one tick period (1 s), in the model and in the code alike.
+The property text ("never REPORTED weak while disconnected") is met - reports are made at ticks -; the invariant
+"weak ⇒ connected" at every instant is NOT claimed and does not hold. -/
 theorem C17_arm_not_weak_when_disconnected (v : Views F G) (hv : Faithful v) (s : Full F G) (now i : Nat)
     (l : FLink F) (hnd : (ids s.sys.links).Nodup) (hl : (afterHk s.sys now).1.links[i]? = some l)
     (hc : l.core.connected = false) :
@@ -245,10 +268,22 @@ theorem C17_arm_not_weak_under_floor (v : Views F G) (s : Full F G) (now : Nat)
     obtain ⟨x, -, rfl⟩ := ho
     simp [Classifier.verdictOf, hb]
 
--- non-vacuity: no connected link in the slice (`connectedCount = 0`) is exhibited by a state whose links are all
--- down; a total under the floor cannot be evaluated inside Lean (f64 comparison), the harness counts it
--- (`hkarm-under-floor`)
-example : Classifier.connectedCount (clsTick exViews [FLink.newUplink 3 3 0]) = 0 := by decide
+/-- `exF` with every link down (`connected = false`); link 2 still carries the stamp `weak = true`. -/
+def exDown : Full Int Rat :=
+  { exF with sys := { exF.sys with links := exF.sys.links.map fun l =>
+      { l with core := { l.core with connected := false } } } }
+
+-- non-vacuity (audit 5, A7: on a NON-pristine state and THROUGH the arm): in `exDown` no link is connected after
+-- `handle_housekeeping` at 5100 (`connectedCount = 0`: the second disjunct of the hypothesis), link 2 enters the arm
+-- with `weak = true` and every link leaves it with `weak = false`.  The FIRST disjunct (a total under the floor) is
+-- an f64 comparison and cannot be evaluated inside Lean; more generally, with `exViews` (0.0 bit/s, no Kalman value)
+-- EVERY Lean example tick of this file is a bypass tick: no Lean example has a classified tick or a `weak = true`
+-- stamp.  Non-vacuity of "stamped weak = true", of the floor disjunct and of every C17 clause through the arm rests
+-- on the harness counters `hkarm-weak-stamped`, `hkarm-classified`, `hkarm-under-floor` (component `sys`).
+example : Classifier.connectedCount (clsTick exViews (afterHk exDown.sys 5100).1.links) = 0 ∧
+    exDown.sys.links.map (·.weak) = [false, true, false] ∧
+    (hkArm exViews exDown 5100).1.sys.links.map (·.weak) = [false, false, false] :=
+  ⟨by decide +kernel, by decide +kernel, by decide +kernel⟩
 
 /-! ### The filter state along a run is `classify` folded over the slices at the ticks -/
 
@@ -707,10 +742,14 @@ theorem ArmInv_step (v : Views F G) (s : Full F G) (h : ArmInv s) (e : FEv) (hwf
 
 /-- **Along every run of the whole sender the stamped target of every link is 0 or within
 [100 000, 200 000 000] bit/s** — any interleaving of ticks with client / uplink / flush / reload / configuration /
-injection events (`FEv.wf`: the shell events `hk`, `syncTimeout`, `stamp` occur only inside a tick, as in the real
-loop); from any state whose controller is reachable from `LinkCcController::new()` and whose links carry admissible
-targets (start-up: empty controller, targets 0).  Every scalar instance of the controller, in particular `Float`
-(`C16_bounds_ctl` through the arm). -/
+injection events and bare `hk` / `syncTimeout` passes (`FEv.wf`, since audit 5 A4: only a BARE `stamp` - verdicts
+that are inputs - is excluded; the pre-loop pass `[.other .syncTimeout, .other (.hk now0)]` of the real sender is a
+well-formed prefix, example `exEvsPre`); from any state whose controller is reachable from
+`LinkCcController::new()` and whose links carry admissible targets (start-up: empty controller, targets 0).  Every
+scalar instance of the controller, in particular `Float` (`C16_bounds_ctl` through the arm).
+LIMIT (audit 5, A3): the disjunct `ccTarget = 0` is allowed for every link at every time here; that 0 occurs only
+for links created since the last tick, and that a non-zero target is the link's OWN entry's, is
+`C16_arm_own_snapshot_run` below. -/
 theorem C16_arm_bounds_run (v : Views F G) (s : Full F G) (h : ArmInv s) (es : List FEv)
     (hwf : ∀ e ∈ es, e.wf = true) :
     ArmInv (Full.run v s es).1 ∧
